@@ -73,6 +73,10 @@ func genString(t *rapid.T) string {
 func genRec(t *rapid.T, shape string) Rec {
 	var r Rec
 	o := vkit.GeomOpts{Types: []string{shape}, MinMembers: 1, MaxMembers: rapid.SampledFrom([]int{1, 2, 5}).Draw(t, "maxmem"), MinPts: 1, MaxPts: 6, Coord: vkit.CoordFinite()}
+	if rapid.IntRange(0, 29).Draw(t, "bigshape") == 11 && shape != "Point" && shape != "Bounds" {
+		o.MinPts, o.MaxPts, o.MaxMembers = 300, 1500, 2 // parts of hundreds of points (record lengths beyond any small buffer)
+		o.Coord = rapid.Float64Range(-1e6, 1e6)
+	}
 	r.G = vkit.GenGJ(t, o)
 	if shape == "Polygon" {
 		// closed and unclosed spellings
